@@ -62,6 +62,27 @@ type c03World struct {
 	users    map[string]bool
 	docs     map[string]*c03DocModel
 	curRev   map[string]string
+	// home collection of the granting documents and admin channel assignments; grants must not show in the bystanders
+	scope, collName string
+	bystanders      [][2]string
+	tag             string // fingerprint prefix for non-default layouts
+}
+
+func (w *c03World) admin(chans base.Set) *auth.PrincipalConfig {
+	cfg := &auth.PrincipalConfig{}
+	if w.scope == "" || base.IsDefaultCollection(w.scope, w.collName) {
+		cfg.ExplicitChannels = chans
+	} else {
+		cfg.SetExplicitChannels(w.scope, w.collName, chans.ToArray()...)
+	}
+	return cfg
+}
+
+func (w *c03World) home() (string, string) {
+	if w.scope == "" {
+		return base.DefaultScope, base.DefaultCollection
+	}
+	return w.scope, w.collName
 }
 
 func (w *c03World) n(name string) string { return name + w.sfx }
@@ -154,10 +175,10 @@ func (w *c03World) apply(sym string) error {
 	switch sym {
 	case "u1-adm-A":
 		w.userAdm["u1"] = map[string]bool{"A": true}
-		return setUser("u1", &auth.PrincipalConfig{ExplicitChannels: base.SetOf("A")})
+		return setUser("u1", w.admin(base.SetOf("A")))
 	case "u1-adm-none":
 		w.userAdm["u1"] = map[string]bool{}
-		return setUser("u1", &auth.PrincipalConfig{ExplicitChannels: base.Set{}})
+		return setUser("u1", w.admin(base.Set{}))
 	case "u1-role-r1":
 		w.userRole["u1"] = map[string]bool{"r1": true}
 		return setUser("u1", &auth.PrincipalConfig{ExplicitRoleNames: base.SetOf(w.n("r1"))})
@@ -183,7 +204,9 @@ func (w *c03World) apply(sym string) error {
 			}
 		}
 		w.roleLive["r1"] = true
-		_, _, err := w.db.UpdatePrincipal(ctx, &auth.PrincipalConfig{Name: base.Ptr(w.n("r1")), ExplicitChannels: chans}, false, true)
+		rcfg := w.admin(chans)
+		rcfg.Name = base.Ptr(w.n("r1"))
+		_, _, err := w.db.UpdatePrincipal(ctx, rcfg, false, true)
 		return err
 	case "del-r1":
 		if !w.roleLive["r1"] {
@@ -324,10 +347,22 @@ func (w *c03World) check(step string) map[string]string {
 			viol["C03/harness/get-user"] = fmt.Sprintf("%s: %v", u, err)
 			continue
 		}
-		set, err := usr.InheritedCollectionChannels(base.DefaultScope, base.DefaultCollection)
+		hs, hc := w.home()
+		set, err := usr.InheritedCollectionChannels(hs, hc)
 		if err != nil {
 			viol["C03/harness/inherited-channels"] = err.Error()
 			continue
+		}
+		for _, by := range w.bystanders {
+			other, err := usr.InheritedCollectionChannels(by[0], by[1])
+			if err != nil {
+				viol["C03/harness/inherited-channels"] = err.Error()
+				continue
+			}
+			if k := c03Keys(map[string]bool(nil)); len(other) != 1 || !other.Contains("!") {
+				_ = k
+				viol["C03/"+w.tag+"grant-leaked-into-another-collection/after-"+kind] = fmt.Sprintf("user %s has channels %v in collection %s.%s although every grant was made in %s.%s", u, other.AllKeys(), by[0], by[1], hs, hc)
+			}
 		}
 		got := map[string]bool{}
 		for c := range set {
@@ -345,10 +380,10 @@ func (w *c03World) check(step string) map[string]string {
 					dir = "extra-channel"
 				}
 			}
-			viol["C03/user-channels/"+dir+"/after-"+kind] = fmt.Sprintf("user %s has effective channels {%s}, expected {%s}", u, c03Keys(got), c03Keys(wantCh))
+			viol["C03/"+w.tag+"user-channels/"+dir+"/after-"+kind] = fmt.Sprintf("user %s has effective channels {%s}, expected {%s}", u, c03Keys(got), c03Keys(wantCh))
 		}
 		if c03Keys(gotRoles) != c03Keys(wantRoles) {
-			viol["C03/user-roles/after-"+kind] = fmt.Sprintf("user %s has roles {%s}, expected {%s}", u, c03Keys(gotRoles), c03Keys(wantRoles))
+			viol["C03/"+w.tag+"user-roles/after-"+kind] = fmt.Sprintf("user %s has roles {%s}, expected {%s}", u, c03Keys(gotRoles), c03Keys(wantRoles))
 		}
 	}
 	if w.roleLive["r1"] {
@@ -357,12 +392,13 @@ func (w *c03World) check(step string) map[string]string {
 			viol["C03/role-missing/after-"+kind] = fmt.Sprintf("role r1 should exist: %v", err)
 		} else {
 			got := map[string]bool{}
-			for c := range role.CollectionChannels(base.DefaultScope, base.DefaultCollection) {
+			rs, rcn := w.home()
+			for c := range role.CollectionChannels(rs, rcn) {
 				got[c] = true
 			}
 			want := w.modelRoleChannels("r1")
 			if c03Keys(got) != c03Keys(want) {
-				viol["C03/role-channels/after-"+kind] = fmt.Sprintf("role r1 has channels {%s}, expected {%s}", c03Keys(got), c03Keys(want))
+				viol["C03/"+w.tag+"role-channels/after-"+kind] = fmt.Sprintf("role r1 has channels {%s}, expected {%s}", c03Keys(got), c03Keys(want))
 			}
 		}
 	}
@@ -370,7 +406,8 @@ func (w *c03World) check(step string) map[string]string {
 }
 
 type c03Case struct {
-	Hist []string `json:"hist"`
+	Hist   []string `json:"hist"`
+	Layout string   `json:"layout,omitempty"`
 }
 
 type c03Env struct {
@@ -378,13 +415,21 @@ type c03Env struct {
 	ctx  context.Context
 	coll *DatabaseCollectionWithUser
 	n    int
+	// non-default layouts
+	layout          string
+	scope, collName string
+	bystanders      [][2]string
 }
 
 func (e *c03Env) run(t testing.TB, r *vreport.Report, hist []string) {
 	e.n++
 	w := &c03World{t: t, db: e.db, ctx: e.ctx, coll: e.coll, sfx: fmt.Sprintf("_%d", e.n),
 		userAdm: map[string]map[string]bool{"u1": {}}, userRole: map[string]map[string]bool{"u1": {}}, roleAdm: map[string]map[string]bool{"r1": {}},
-		roleLive: map[string]bool{"r1": true}, users: map[string]bool{"u1": true}, docs: map[string]*c03DocModel{}, curRev: map[string]string{}}
+		roleLive: map[string]bool{"r1": true}, users: map[string]bool{"u1": true}, docs: map[string]*c03DocModel{}, curRev: map[string]string{},
+		scope: e.scope, collName: e.collName, bystanders: e.bystanders}
+	if e.layout != "" {
+		w.tag = "layout-" + e.layout + "/"
+	}
 	// initial principals: u1 and r1 exist with no grants
 	if _, _, err := e.db.UpdatePrincipal(e.ctx, &auth.PrincipalConfig{Name: base.Ptr(w.n("r1"))}, false, false); err != nil {
 		t.Fatalf("setup role: %v", err)
@@ -394,11 +439,11 @@ func (e *c03Env) run(t testing.TB, r *vreport.Report, hist []string) {
 	}
 	for i, sym := range hist {
 		if err := w.apply(sym); err != nil {
-			r.Violate("C03/step-failed/"+strings.SplitN(sym, ":", 2)[0], fmt.Sprintf("step %d %q of %v failed: %v", i, sym, hist, err), c03Case{Hist: hist[:i+1]})
+			r.Violate("C03/step-failed/"+strings.SplitN(sym, ":", 2)[0], fmt.Sprintf("step %d %q of %v failed: %v", i, sym, hist, err), c03Case{Hist: hist[:i+1], Layout: e.layout})
 			return
 		}
 		for fp, d := range w.check(sym) {
-			r.Violate(fp, fmt.Sprintf("%s after step %d of history %v", d, i, hist), c03Case{Hist: hist[:i+1]})
+			r.Violate(fp, fmt.Sprintf("%s after step %d of history %v (layout %q)", d, i, hist, e.layout), c03Case{Hist: hist[:i+1], Layout: e.layout})
 		}
 		r.Add("step_comparisons", 1)
 	}
@@ -487,6 +532,136 @@ func TestVerifC03(t *testing.T) {
 			}
 		}
 		rec2(nil)
+	}
+	if r.Expired() {
+		r.Cap("time budget reached before all histories were explored")
+	}
+}
+
+
+// ---- collection layouts: the same enumeration where the granting documents and admin assignments live in a named
+// collection (named scope; or the _default scope next to the default collection) or in the default collection next to
+// a named one; every grant must take effect in its own collection and in no other.
+
+const c03NamedInDefaultScope = "verifcoll"
+
+func c03LayoutEnv(t *testing.T, layout string) (*c03Env, func()) {
+	ctx := base.TestCtx(t)
+	tb := base.GetTestBucket(t)
+	syncFn := c03SyncFn
+	var scopes ScopesOptions
+	var home [2]string
+	var bystanders [][2]string
+	switch layout {
+	case "named-scope":
+		scopes = GetScopesOptions(t, tb, 2)
+		var names [][2]string
+		for sn, sc := range scopes {
+			for cn := range sc.Collections {
+				names = append(names, [2]string{sn, cn})
+			}
+		}
+		sort.Slice(names, func(i, j int) bool { return names[i][1] < names[j][1] })
+		home, bystanders = names[0], names[1:]
+	case "named-in-default-scope", "default-next-to-named":
+		dsName := base.ScopeAndCollectionName{Scope: base.DefaultScope, Collection: c03NamedInDefaultScope}
+		if err := tb.CreateDataStore(ctx, dsName); err != nil {
+			t.Fatalf("create datastore: %v", err)
+		}
+		nds, err := tb.NamedDataStore(ctx, dsName)
+		if err != nil {
+			t.Fatalf("named datastore: %v", err)
+		}
+		if err := InitializeViews(ctx, nds); err != nil {
+			t.Fatalf("views: %v", err)
+		}
+		scopes = ScopesOptions{base.DefaultScope: ScopeOptions{Collections: map[string]CollectionOptions{base.DefaultCollection: {}, c03NamedInDefaultScope: {}}}}
+		if layout == "named-in-default-scope" {
+			home, bystanders = [2]string{base.DefaultScope, c03NamedInDefaultScope}, [][2]string{{base.DefaultScope, base.DefaultCollection}}
+		} else {
+			home, bystanders = [2]string{base.DefaultScope, base.DefaultCollection}, [][2]string{{base.DefaultScope, c03NamedInDefaultScope}}
+		}
+	}
+	for sn, sc := range scopes {
+		for cn := range sc.Collections {
+			sc.Collections[cn] = CollectionOptions{Sync: &syncFn}
+		}
+		scopes[sn] = sc
+	}
+	database, ctx := SetupTestDBForBucketWithOptions(t, tb.NoCloseClone(), DatabaseContextOptions{AllowConflicts: base.Ptr(true), CacheOptions: base.Ptr(DefaultCacheOptions()), Scopes: scopes, BcryptCost: 4})
+	coll, err := database.GetDatabaseCollectionWithUser(home[0], home[1])
+	if err != nil {
+		t.Fatalf("collection: %v", err)
+	}
+	cctx := coll.AddCollectionContext(ctx)
+	e := &c03Env{db: database, ctx: cctx, coll: coll, layout: layout, scope: home[0], collName: home[1], bystanders: bystanders}
+	return e, func() {
+		database.Close(ctx)
+		if layout != "named-scope" {
+			_ = tb.DropDataStore(ctx, base.ScopeAndCollectionName{Scope: base.DefaultScope, Collection: c03NamedInDefaultScope})
+		}
+		tb.Close(ctx)
+	}
+}
+
+func TestVerifC03Layouts(t *testing.T) {
+	r := vreport.Begin("C03")
+	defer r.Finish(t)
+	r.Rule("the history enumeration of part a (depth D-1 from the empty database, depth D-2 from the conflicted bases) for three collection layouts: granting documents and admin assignments in a named collection of a named scope (second collection as bystander), in a named collection of the _default scope (default collection as bystander), in the default collection (named collection of the _default scope as bystander); effective access judged in the home collection, and every bystander collection must show no grant; non-trivial = distinct (layout, history)")
+	r.Assume("as part a")
+	var rc c03Case
+	layouts := []string{"named-scope", "named-in-default-scope", "default-next-to-named"}
+	if r.Replaying(&rc) {
+		e, closeF := c03LayoutEnv(t, rc.Layout)
+		defer closeF()
+		e.run(t, r, rc.Hist)
+		return
+	}
+	D := 2
+	if r.Thorough() {
+		D = 3
+	}
+	r.Note("depth", D)
+	bases := [][]string{
+		nil,
+		{"r1-adm-B", "g1:none", "g1:u1:C1", "g1-conflictlo:u1-gets-r1"},
+		{"r1-adm-B", "g1:none", "g1:u1-gets-r1", "g1-conflicthi:u1:C4"},
+	}
+	idx := 0
+	for _, layout := range layouts {
+		var e *c03Env
+		var closeF func()
+		for bi, b := range bases {
+			depth := D
+			if bi > 0 {
+				depth = D - 1
+			}
+			var rec func(h []string)
+			rec = func(h []string) {
+				if len(h) == depth {
+					idx++
+					if r.Mine(idx) && !r.Expired() {
+						if e == nil {
+							e, closeF = c03LayoutEnv(t, layout)
+						}
+						e.run(t, r, append(append([]string{}, b...), h...))
+						r.Add("evaluations", 1)
+						r.Add("distinct_nontrivial", 1)
+						if idx%211 == 0 || idx <= 16 {
+							r.Sample(map[string]any{"layout": layout, "history": append(append([]string{}, b...), h...)})
+						}
+					}
+					return
+				}
+				for _, s := range c03Alphabet {
+					rec(append(append([]string{}, h...), s))
+				}
+			}
+			rec(nil)
+		}
+		if closeF != nil {
+			closeF()
+		}
 	}
 	if r.Expired() {
 		r.Cap("time budget reached before all histories were explored")
